@@ -33,19 +33,49 @@ def canary_other(traces):
                 return c, 'attempt ended with an exception that is not a relay error'
 
 
+def canary_ownclass(traces):
+    for tr in traces:
+        for j, e in enumerate(tr['ev']):
+            if e['t'] == 'ret' and e['kind'] == 'map' and 'P' in e['per'] and 'T' in e['per'] and 'ok' not in e['per'] and not any(
+                    x['t'] == 'peer' and x['stage'] not in ('rcpt', 'quit', 'rset') and (x['act'] != 'code' or x['code'] >= 400) for x in tr['ev']):
+                c = copy.deepcopy(tr)
+                c['ev'][j].update({'kind': 'raise', 'cls': e['per'][0], 'per': []})
+                return c, 'every recipient refused, some for good and some for now, reported as one failure of the first class'
+
+
 def run(tier):
+    import json
+    import os
+    from .. import behav
     wd = workdir('C11')
+    q = tier == 'quick'
+    # (M) every complete behaviour of the RelayClient design model, emitted by TLC and replayed against the real relay
+    sets, infos = [], []
+    for nr, lmtp, pipe in (((2, False, True), (2, True, True), (1, False, False), (1, True, False)) if q else
+                           ((2, False, True), (2, False, False), (2, True, True), (2, True, False), (3, True, True), (3, False, True))):
+        b, info = behav.relayclient(wd, nr, lmtp, pipe, False)
+        sets.append({'nr': nr, 'lmtp': lmtp, 'pipe': pipe, 'behaviours': b})
+        infos.append(info)
+    behfile = os.path.join(wd, 'relayclient_behaviours.json')
+    behav.save(behfile, sets)
     return flow.standard(
-        'C11', tier, [], 'c11', 'Trace_Relay', 'Trace_Relay.cfg', [canary_false_delivery, canary_class, canary_other],
+        'C11', tier, behav.relayclient_design_jobs(wd, False), 'c11', 'Trace_Relay', 'Trace_Relay.cfg',
+        [canary_false_delivery, canary_class, canary_other, canary_ownclass],
+        extras=[{'driver': 'c11m', 'module': 'Trace_Relay', 'cfg': 'Trace_Relay.cfg', 'args': (behfile,)}],
+        extra_cov={'model_replay': infos},
         level='model_checking',
         rule='downstream scripts for the real StaticSmtpRelay and StaticLmtpRelay: a deviating reply class {4xx, 5xx, '
              'malformed, disconnect} at every single stage (banner, EHLO incl. 500->HELO fallback, MAIL, each RCPT, DATA, '
              'end-of-data per recipient for LMTP, RSET, QUIT), pairs of deviating stages, the full product of RCPT (and LMTP '
              'end-of-data) classes; 1-3 recipients; envelopes that list an address twice (every copy answered alike); PIPELINING '
-             'on/off; non-trivial = at least one downstream failure event',
+             'on/off; model replay: every complete behaviour of spec/RelayClient.tla (TLC enumerates every answer {2xx, 4xx, 5xx, '
+             '500, garbage, disconnect, silence} at every reply the client waits for, connect to QUIT, 1-2 (thorough 3) recipients, '
+             'SMTP/LMTP, PIPELINING on/off) replayed against the real relay, which must also hold the same conversation and '
+             'return the same result (reported as DRIFT_*); non-trivial = at least one downstream failure event',
         trigger=lambda tr: any(e['t'] == 'peer' and (e['act'] != 'code' or e['code'] >= 400) for e in tr['ev']),
-        assumptions=['when a conversation contains several failure events the result may carry the class of any of them '
-                     '(DESIGN.md section 5, C11); delivered => accepted is strict',
+        assumptions=['when a conversation contains several failure events of different stages the result may carry the class of '
+                     'any of them (DESIGN.md section 5, C11); delivered => accepted is strict, and so is the class of each '
+                     'recipient when nothing but RCPT refusals went wrong (C11_OwnClass)',
                      'the downstream is an in-memory scripted peer handed out by socket_creator'],
         trusted=['TLC 1.8', 'CommunityModules Json/IOUtils', 'harness/rdrv.py (scripted downstream)', 'harness/vt.py'],
         wd=wd, clause_filter=lambda c: c.startswith('C11_'))
